@@ -4,7 +4,7 @@ import z3
 from pyvc import vals as V
 from pyvc.vals import Val, SeqV, NONE, fresh, PyTuple
 from pyvc.unit import Unit, LoopSpec, LemmaUnit
-from pyvc.models import UFunc, Rec, Fn, Nop, Future, FutureCtor, PipeWriter, PipeReader
+from pyvc.models import UFunc, Rec, Fn, Nop, Future, FutureCtor, PipeWriter, PipeReader, ThreadCtor, ThreadObj
 from pyvc.core import St, Module, box, Unsupported, KwPack, StarPack, Obj, ecode, Callable_, unbox_handle
 
 CTX = 'multiprocessing/context.py'
@@ -1020,12 +1020,22 @@ class ThreadTerminate(Unit):
 
     def on_call(self, ex, st, e, src):
         if src == 'super().join':
+            st = st.fork()
+            st.ghost['waited'] = True
             return [('ok', st, NONE)]
         return None
 
     @property
     def loops(self):
         sp = LoopSpec(inv=lambda s, ex: z3.BoolVal(all(t == 'SystemExit' for t in s.ghost['throws'])), keep_ghost=('throws',))
+
+        def head(h, ex):
+            h.ghost['throws_at_head'] = len(h.ghost['throws'])
+            h.ghost['waited'] = False
+        sp.at_head = head
+        # every round on a thread found alive makes progress towards its end: one SystemExit thrown into it, then a short wait (not a spin)
+        sp.on_backedge = lambda s, ex: ex.oblige(s, 'iteration: a thread found alive gets SystemExit thrown into it (once per round) and is then given a moment (bounded join) before the next look',
+                                                 z3.BoolVal(len(s.ghost['throws']) == s.ghost.get('throws_at_head', 0) + 1 and bool(s.ghost.get('waited'))))
         return {0: sp}
 
     def post(self, ex, outs):
@@ -1037,10 +1047,67 @@ class ThreadTerminate(Unit):
                 ex.oblige(s, 'exit(raise): only the "thread is not running" error of throw() (the thread ended by itself in between)', V.isinst(p, 'mp.InvalidStateError'))
 
 
+class StartUnit(Unit):
+    prop = 'C20'
+    file = CTX
+    qual = 'SpawnProcess.start'
+    ignore_stmts = (r'self\._finalizer_ = .*',)
+    canaries = (('log reader started on another queue', 'args=(self._logger_queue_,),', 'args=(MP_SPAWN_CTX.Queue(),),', 'reads this process'),
+                ('collector thread not started', '        self._result_collector_thread_.start()', '        pass', 'both started'),
+                ('no future for the collector to resolve', '        self._future_ = concurrent.futures.Future()\n', '', 'pending future'))
+
+    def setup(self, ex):
+        st = St()
+        self.logq = z3.Const('logger_queue', Val)
+        self.run_logger = Fn(lambda e, s, a, k, n: [('ok', s, NONE)], name='_run_logger')
+        self.collect = Fn(lambda e, s, a, k, n: [('ok', s, NONE)], name='_collect_result')
+        self.me = Rec(ex, 'self', methods={'_run_logger': self.run_logger, '_collect_result': self.collect}).init(st, _logger_queue_=self.logq, name=z3.String('name'), daemon=z3.Bool('daemon'))
+        st.env['self'] = self.me
+        ex.globals['Thread'] = ThreadCtor()
+        from pyvc.models import FutureCtor
+        ex.globals['concurrent.futures.Future'] = FutureCtor()
+        ex.globals['MP_SPAWN_CTX'] = Rec(ex, 'ctx', methods={'Queue': Fn(lambda e, s, a, k, n: [('ok', s, fresh('otherq'))])})
+        st.ghost['os_started'] = z3.BoolVal(False)
+        return st
+
+    def on_call(self, ex, st, e, src):
+        if src == 'super().start':
+            st = st.fork()
+            st.ghost['os_started'] = z3.BoolVal(True)
+            return [('ok', st, NONE)]
+        if src == 'getattr':
+            return [('ok', st, st.env['self'].get(st, 'daemon'))]
+        return None
+
+    def on_thread_start(self, ex, st, t, node):
+        # [C12] the collector resolves self._future_: it must exist -- a future of this start, pending -- before that thread runs
+        if t.target is self.collect:
+            from pyvc.models import Future
+            f = unbox_handle(ex, self.me.get(st, '_future_')) if self.me.has(st, '_future_') else None
+            ex.oblige(st, f'line {node.lineno}: [C12] a new, pending future is stored on the process before the result collector (which resolves it) is started',
+                      z3.And(z3.BoolVal(isinstance(f, Future)), z3.Not(f.get(st, 'done'))) if isinstance(f, Future) else z3.BoolVal(False))
+
+    def post(self, ex, outs):
+        for k, s, p in outs:
+            if k in ('normal', 'return'):
+                th = [o for o in ex.objs.values() if isinstance(o, ThreadObj)]
+                lg = [t for t in th if t.target is self.run_logger]
+                co = [t for t in th if t.target is self.collect]
+                ok = len(th) == 2 and len(lg) == 1 and len(co) == 1
+                args = unbox_handle(ex, lg[0].args) if ok else None
+                ok = ok and isinstance(args, PyTuple) and len(args.items) == 1
+                ex.oblige(s, 'exit: the log reader thread reads this process\'s log queue, the result collector runs _collect_result; both started after the OS process',
+                          z3.And(z3.BoolVal(bool(ok)), box(ex, args.items[0]) == self.logq, lg[0].get(s, 'started'), co[0].get(s, 'started'), s.ghost['os_started'],
+                                 z3.BoolVal(self.me.get(s, '_logger_thread_') is lg[0])) if ok else z3.BoolVal(False))
+            else:
+                ex.oblige(s, 'exit: does not raise', False)
+
+
+
 UNITS_THREAD_EXTRA = [ThreadDone, ThreadTerminate]
 
 UNITS = [ProcInit, ProcInitNone, ProcessRun, ProcessRunNoTarget, CollectResult, ProcJoin, ProcJoinTimeout, ProcException, ProcResult, ProcDone,
-         ThreadRun, ThreadRunNoTarget, ThreadJoin, ThreadResult, ThreadException] + UNITS_THREAD_EXTRA + UNITS_WAIT + [Agreement]
+         ThreadRun, ThreadRunNoTarget, ThreadJoin, ThreadResult, ThreadException] + UNITS_THREAD_EXTRA + UNITS_WAIT + [StartUnit, Agreement]
 
 
 SCENARIOS = [('', 'replay/scenarios/c12_sigkill_wait.py'), ('', 'replay/scenarios/c12_exotic_exceptions.py')]
